@@ -369,6 +369,10 @@ func runCase(e *vlib.Env, w *world, r *vlib.Rand, p plan, idx int) {
 		for i, ch := range chains {
 			okL[i], okP[i] = vfy(ch, li), vfy(ch, pi)
 		}
+		if time.Since(Tc) > 2800*time.Millisecond { // oracle bits must be taken inside the margin too
+			time.Sleep(time.Until(Tc.Add(time.Second)))
+			continue
+		}
 		words := []string{"gen", fmt.Sprintf("%d", int(p.want)), fmt.Sprintf("%d", int64(zeroRel)), b(p.keyRingFails),
 			fmt.Sprintf("%d", len(p.keys))}
 		for ki, k := range p.keys {
@@ -585,19 +589,23 @@ func specSigners(e *vlib.Env, w *world, p plan, db *pki2.MemDB, signers []trust.
 		// signing: succeeds iff not expired; signed messages verify with a verifier bound to the IA
 		expSec := pki2.Rel(s.Expiration, Tc) / sec
 		msg := []byte("verif message")
+		before := time.Now()
 		sm, err := s.Sign(context.Background(), msg, []byte("ad"))
-		if expSec >= 4 && err != nil {
+		after := time.Now()
+		_ = expSec
+		if err != nil && after.Before(s.Expiration) {
 			bad("sign-fails", "signing fails although the signer has not expired: "+err.Error(), s)
 		}
-		if expSec <= -1 && err == nil {
+		if err == nil && before.After(s.Expiration) {
 			bad("sign-after-expiry", "signing succeeds although the signer has expired", s)
 		}
-		if err == nil {
+		// (verification below depends on the wall clock staying inside the case's margin)
+		if err == nil && time.Since(Tc) < 2800*time.Millisecond {
 			prov := trust.FetchingProvider{DB: db, Recurser: fakeRecurser{}}
 			db.FailChains = false
 			db.FailTRCCall = map[int]bool{}
 			v := trust.Verifier{BoundIA: ia, Engine: prov}
-			if _, err := v.Verify(context.Background(), sm, []byte("ad")); err != nil {
+			if _, err := v.Verify(context.Background(), sm, []byte("ad")); err != nil && time.Since(Tc) < 3500*time.Millisecond {
 				bad("verify-bound-ia", "message signed by the signer does not verify with a verifier bound to its ISD-AS: "+err.Error(), s)
 			}
 			vo := trust.Verifier{BoundIA: addr.MustParseIA(iaOth), Engine: prov}
@@ -663,13 +671,136 @@ func runSignRealTime(e *vlib.Env, w *world, n int) {
 	}
 }
 
+// ---------------------------------------------------------------------------------------
+// Verifier.Verify on messages signed by fabricated signers, with a scripted engine
+
+type scriptedEngine struct {
+	notifyErr error
+	chains    [][]*x509.Certificate
+	chainsErr error
+}
+
+func (s scriptedEngine) NotifyTRC(context.Context, cppki.TRCID, ...trust.Option) error {
+	return s.notifyErr
+}
+
+func (s scriptedEngine) GetChains(context.Context, trust.ChainQuery, ...trust.Option) ([][]*x509.Certificate, error) {
+	return s.chains, s.chainsErr
+}
+
+func (s scriptedEngine) GetSignedTRC(context.Context, cppki.TRCID, ...trust.Option) (cppki.SignedTRC, error) {
+	return cppki.SignedTRC{}, errors.New("not used")
+}
+
+func runVerify(e *vlib.Env, w *world, r *vlib.Rand, idx int) {
+	ias := []string{iaLeaf, iaOth, iaCore, "1-0", "0-ff00:0:111"}
+	sia := addr.MustParseIA(ias[r.Intn(2)])
+	if r.Chance(12) {
+		sia = addr.MustParseIA(ias[r.Intn(len(ias))])
+	}
+	var bound addr.IA
+	switch r.Intn(4) {
+	case 0:
+	case 1, 2:
+		bound = sia
+	default:
+		bound = addr.MustParseIA(ias[r.Intn(3)])
+	}
+	k := w.keys256[r.Intn(len(w.keys256))]
+	if r.Chance(15) {
+		k = w.key384
+	}
+	alg, _ := selectAlg(k.Priv)
+	skid := k.SKID
+	if r.Chance(8) {
+		skid = nil
+	}
+	s := trust.Signer{PrivateKey: k.Priv, Algorithm: alg, IA: sia, SubjectKeyID: skid,
+		Expiration: time.Now().Add(time.Hour), TRCID: cppki.TRCID{ISD: sia.ISD(), Base: 1, Serial: 1}}
+	ad := [][]byte{[]byte("assoc"), []byte("data")}
+	sm, err := s.Sign(context.Background(), []byte("payload"), ad...)
+	if err != nil {
+		e.Case("verify-sign-failed", "~sign-failed", true)
+		return
+	}
+	hdrOK := true
+	if r.Chance(6) {
+		sm.HeaderAndBody = []byte{0xff, 0x01, 0x02}
+		hdrOK = false
+	}
+	// scripted chains: certificates for the signer's key / other keys (only chain[0].PublicKey matters)
+	T := time.Now().Truncate(time.Second)
+	var eng scriptedEngine
+	nch := r.Intn(4)
+	for i := 0; i < nch; i++ {
+		ck := w.keys256[r.Intn(len(w.keys256))]
+		if r.Chance(45) {
+			ck = k
+		}
+		c, err := pki2.Issue(pki2.ASTmpl("v", iaLeaf, T.Add(-time.Hour), T.Add(time.Hour), ck), ck, w.cas[0].cert, w.cas[0].key)
+		if err != nil {
+			continue
+		}
+		eng.chains = append(eng.chains, []*x509.Certificate{c, w.cas[0].cert})
+	}
+	if r.Chance(8) {
+		eng.notifyErr = errors.New("notify failed")
+	}
+	if r.Chance(8) {
+		eng.chainsErr = errors.New("chains failed")
+	}
+	engineNil := r.Chance(4)
+	v := trust.Verifier{BoundIA: bound}
+	if !engineNil {
+		v.Engine = eng
+	}
+	var verr error
+	res, ok := vlib.Safe(func() string {
+		_, verr = v.Verify(context.Background(), sm, ad...)
+		return ""
+	})
+	// oracle bits
+	words := []string{"ver", b(hdrOK), b(len(skid) == 0), fmt.Sprintf("%d", uint64(sia)), fmt.Sprintf("%d", uint64(bound)),
+		b(engineNil), b(eng.notifyErr == nil)}
+	anySig := false
+	if eng.chainsErr != nil {
+		words = append(words, "e")
+	} else {
+		words = append(words, fmt.Sprintf("%d", len(eng.chains)))
+		for _, ch := range eng.chains {
+			_, err := signed.Verify(sm, ch[0].PublicKey, ad...)
+			words = append(words, b(err == nil))
+			anySig = anySig || err == nil
+		}
+	}
+	ans := "ok"
+	if !ok {
+		ans = res
+	} else if verr != nil {
+		ans = "rej"
+	}
+	e.Op(strings.Join(words, " "), ans, "ver/"+ans)
+	// statement: a verifier bound to an ISD-AS accepts only messages of that ISD-AS, and only
+	// when a handed-out chain's key verifies the signature
+	if ok && verr == nil {
+		if !bound.IsZero() && !bound.Equal(sia) {
+			e.Violate("C36/verify-other-ia", "verifier bound to another ISD-AS accepted the message",
+				map[string]any{"case": idx, "signer_ia": sia.String(), "bound": bound.String()})
+		}
+		if !anySig {
+			e.Violate("C36/verify-no-chain", "message accepted although no provided chain verifies the signature",
+				map[string]any{"case": idx})
+		}
+	}
+}
+
 func selectAlg(k crypto.Signer) (signed.SignatureAlgorithm, error) {
 	return signed.SelectSignatureAlgorithm(k.Public())
 }
 
 func main() {
 	e := vlib.Init()
-	r := vlib.NewRand(uint64(e.Seed))
+	r := pki2.Rand(e.Seed)
 	w := buildWorld()
 	e.Rule = "per case: real P-256/384 (and unsupported P-224 / Ed25519) keys, 0-4 freshly issued AS certificates per key " +
 		"(validity, issuing CA under root1/root2/unknown root/expired root, ExtKeyUsage, other ISD-AS, NotAfter ties), " +
@@ -686,5 +817,9 @@ func main() {
 		runSign(e, w, r)
 	}
 	runSignRealTime(e, w, e.N(6, 40))
+	nv := e.N(1500, 20000)
+	for i := 0; i < nv; i++ {
+		runVerify(e, w, r, i)
+	}
 	e.Finish()
 }
